@@ -80,12 +80,13 @@ def hayson_grid_shapes():
 
 def zinc_mutant_vectors(ctx, q, styles):
     """prefixes and single edits of the spec writer's documents: quick = depth-0 documents, sampled replacement set;
-    thorough = depth-0 documents with the full replacement set plus every third depth-1 document with the sampled set
-    (the full set on all depth-1 documents is several million events)"""
+    thorough = depth-0 documents with the full replacement set plus every sixth depth-1 document with the sampled set
+    (the full set on all depth-1 documents is several million events; every third was 5.6 GB of events for three styles once
+    the universe had grown by the later families)"""
     if q:
         return [{"op": "dec.zinc.mutants", "text": t, "full": False} for t in texts_of_universe(ctx, 0, styles)]
     v = [{"op": "dec.zinc.mutants", "text": t, "full": True} for t in texts_of_universe(ctx, 0, styles)]
-    v += [{"op": "dec.zinc.mutants", "text": t, "full": False} for t in texts_of_universe(ctx, 1, styles)[::3]]
+    v += [{"op": "dec.zinc.mutants", "text": t, "full": False} for t in texts_of_universe(ctx, 1, styles)[::6]]
     return v
 
 
@@ -374,7 +375,7 @@ def c03(ctx):
                   "GEN: all texts of length <= %d over a 32-symbol class alphabet (TLC shows the TLA+ reader total on them and the harness "
                   "runs from_str, Parser::parse_value over a reader and the lazy row iterator); all JSON objects of <= 2 members over the "
                   "names/values the Hayson visitor inspects; every prefix and single edit (delete/duplicate/replace/insert by class "
-                  "representatives; thorough: full representative set on depth-0 documents, sampled set on every third depth-1 document) of the documents the spec writers produce for the depth-%d universe; nesting bombs n in 1..10^5 "
+                  "representatives; thorough: full representative set on depth-0 documents, sampled set on every sixth depth-1 document) of the documents the spec writers produce for the depth-%d universe; nesting bombs n in 1..10^5 "
                   "in a child process; the long-token family (every grammar slot of free length filled with k ASCII + n multi-byte characters or raw 0xFF bytes, n up to %s); reader schedules (all chunkings of texts <= 10 bytes, 1-byte reads, Interrupted before every "
                   "byte, I/O error at every offset). REC: %d random byte strings / corpus splices. Outcome monitors: catch_unwind, "
                   "worker process with time limit (retried once alone), child exit status. distinct = distinct inputs"
